@@ -51,6 +51,11 @@ def run(ctx):
                 ok = ua[0] == "field" and is_param(ua[1], 0)  # the wrapper's (only) field: the Weak
 
                 def is_up(x):
+                    x = strip_sym(x)
+                    # a borrowed view of the upgrade result (`strong.as_deref()`, `.as_ref()`) is Some exactly when it is
+                    for _ in range(3):
+                        if sym_is_call(x, "Option<T>::as_deref", "Option<T>::as_ref", "Option<T>::as_mut", "Option<T>::as_deref_mut") and len(x[2]) == 1:
+                            x = strip_sym(x[2][0])
                     return sym_is_call(x, "upgrade") and "Weak" in str(strip_sym(x)[1])
 
                 pf = PredFlow(f, lambda subj, v: {"Some": "P", "None": "N"}.get(v) if is_up(subj) else None)  # P = "upgrade() gave a live Arc"
@@ -89,7 +94,7 @@ def run(ctx):
                 if inner[0].fn is f:
                     # the upgraded Arc is dropped only after the inner call
                     arcs = [i for i in range(b.n) if b.term(i)["k"] == "drop" and "alloc::sync::Arc<" in b.term(i)["pty"] and not b.blocks[i].get("cleanup")]
-                    alive = bool(arcs) and all(b.dominates(inner[0].bb, d) for d in arcs if d in b.reachable(inner[0].bb)) and all(inner[0].bb not in b.reachable(d) for d in arcs)
+                    alive = bool(arcs) and all(inner[0].bb not in b.reachable(d) for d in arcs)
                 # the emission is never decided without consulting the handle: upgrade() lies on every path to a return, and a
                 # path that saw a live Arc returns only through the forwarded call
                 asked = all(b.dominates(up[0].bb, r) for r in b.return_blocks())
